@@ -396,9 +396,13 @@ func init() {
 						}
 						if f.Name() == "postings" {
 							// content use: used as receiver or argument of a call
+							// … or handed on (returned, stored, boxed): anything but a pointer comparison
 							for _, ref := range *ld.Referrers() {
-								if _, ok := ref.(ssa.CallInstruction); ok {
+								switch ref.(type) {
+								case ssa.CallInstruction, *ssa.Return, *ssa.Store, *ssa.MapUpdate, *ssa.MakeInterface, *ssa.Phi:
 									postingsLoads = append(postingsLoads, ld)
+								}
+								if len(postingsLoads) > 0 && postingsLoads[len(postingsLoads)-1] == ld {
 									break
 								}
 							}
@@ -707,4 +711,113 @@ func errReturnReachableAfter(b *ssa.BasicBlock, i int) *ssa.Return {
 		return nil
 	}
 	return check(b, i+1)
+}
+
+// fallibleOrigin: v is (a copy through a local object's field of) result #i of a
+// call that also returns an error; returns that call and its error result.
+func fallibleOrigin(fn *ssa.Function, v ssa.Value, depth int) (*ssa.Call, ssa.Value) {
+	if depth > 4 {
+		return nil, nil
+	}
+	switch x := v.(type) {
+	case *ssa.Extract:
+		call, ok := x.Tuple.(*ssa.Call)
+		if !ok {
+			return nil, nil
+		}
+		res := call.Call.Signature().Results()
+		for j := 0; j < res.Len(); j++ {
+			if isErrorType(res.At(j).Type()) && j != x.Index {
+				for _, ref := range *call.Referrers() {
+					if ex, ok := ref.(*ssa.Extract); ok && ex.Index == j {
+						return call, ex
+					}
+				}
+				return call, nil
+			}
+		}
+	case *ssa.UnOp:
+		if x.Op != token.MUL {
+			return nil, nil
+		}
+		// a load of obj.f: the value last stored to obj.f in this function
+		fa, ok := x.X.(*ssa.FieldAddr)
+		if !ok {
+			return nil, nil
+		}
+		_, f := fieldAddrInfo(fa)
+		if f == nil {
+			return nil, nil
+		}
+		var best *ssa.Store
+		for _, st := range storesToFieldOf(fn, fa.X, f.Name()) {
+			if before(st, x) && (best == nil || before(best, st)) {
+				best = st
+			}
+		}
+		if best != nil {
+			return fallibleOrigin(fn, best.Val, depth+1)
+		}
+	case *ssa.Phi:
+		for _, e := range x.Edges {
+			if call, ev := fallibleOrigin(fn, e, depth+1); call != nil {
+				return call, ev
+			}
+		}
+	}
+	return nil, nil
+}
+
+func init() {
+	register(&Rule{
+		Name:  "CACHE-AFTER-CHECK",
+		Floor: 1,
+		Doc:   "a value obtained from a fallible call is published into a container held by the Segment (the lazily filled caches, e.g. fieldFSTs) only on the path where that call's error was tested nil: a failed load never leaves a nil or half-built entry that later calls would take for a loaded one",
+		Run: func(c *Ctx, scope string, r *Report) {
+			n := 0
+			for _, fn := range c.srcFns {
+				for _, b := range fn.Blocks {
+					for _, ins := range b.Instrs {
+						mu, ok := ins.(*ssa.MapUpdate)
+						if !ok {
+							continue
+						}
+						ld, ok := mu.Map.(*ssa.UnOp)
+						if !ok || ld.Op != token.MUL {
+							continue
+						}
+						fa, ok := ld.X.(*ssa.FieldAddr)
+						if !ok {
+							continue
+						}
+						owner, f := fieldAddrInfo(fa)
+						if owner == nil || owner.Obj().Name() != "Segment" || f == nil {
+							continue
+						}
+						// only objects that exist before the call: a receiver / parameter, not a segment under construction
+						if _, isParam := rootParam(fa.X).(*ssa.Parameter); !isParam || c.entries().CTORONLY[topFn(fn)] {
+							continue
+						}
+						call, errV := fallibleOrigin(fn, mu.Value, 0)
+						if call == nil {
+							continue
+						}
+						n++
+						key := fnName(fn) + "/publish-" + f.Name()
+						switch {
+						case errV == nil:
+							r.bad(key, fnName(fn), c.pos(mu.Pos()), "the value stored into Segment."+f.Name()+" comes from "+calleeFullName(&call.Call)+" whose error result is ignored")
+						case knownNilAt(errV, b):
+							r.ok(key, fnName(fn), c.pos(mu.Pos()), "published only after the error of "+calleeFullName(&call.Call)+" was tested nil")
+						default:
+							r.bad(key, fnName(fn), c.pos(mu.Pos()), "Segment."+f.Name()+" is filled with the result of "+calleeFullName(&call.Call)+" before its error is checked: after a failed load the cache holds an unusable entry, and the next call returns it without an error")
+						}
+					}
+				}
+			}
+			if n == 0 {
+				r.undecided("segment-caches", "", "-", "no lazily filled Segment cache found: the rule's model is out of date")
+			}
+		},
+	})
 }
